@@ -5,7 +5,7 @@ from __future__ import annotations
 import importlib
 import traceback
 
-VALIDATORS = ["mc.builders.vdi", "mc.builders.hdd", "mc.builders.vhd", "mc.builders.vhdx"]
+VALIDATORS = ["mc.builders.vdi", "mc.builders.hdd", "mc.builders.vhd", "mc.builders.vhdx", "mc.builders.vmdk"]
 
 
 def main() -> int:
